@@ -182,8 +182,16 @@ def init_ensures(s):
     o.fields["$n"] = s.n
     g = NS(R=lambda t: t, P=lambda t: z3.RealVal(0), D=lambda t: z3.IntVal(0), Pi=lambda t: z3.IntVal(0))
     o.fields["$g"] = g
+    import torch
+
+    # offsets accumulate wrap-count differences between roots (up to the number of pixels in magnitude, any sign) and parents are
+    # pixel indices: the engine computes with mathematical numbers (A1/A2), so that the storage dtype can hold them is stated here
+    wide = (None, torch.float32, torch.float64, torch.int32, torch.int64, torch.long, torch.int, torch.float, torch.double)
     return [("parent-len", lift(F(o, "parent").sym_len()) == n), ("offset-len", lift(F(o, "offset").sym_len()) == n),
-            ("rank-len", lift(F(o, "rank").sym_len()) == n)] + [("Inv:" + a, b) for a, b in uf_inv(o)]
+            ("rank-len", lift(F(o, "rank").sym_len()) == n),
+            ("offset-dtype-holds-accumulated-wrap-counts(float-or->=32-bit-integer)", getattr(F(o, "offset"), "requested_dtype", None) in wide),
+            ("parent-dtype-holds-pixel-indices(default-int64)", getattr(F(o, "parent"), "requested_dtype", None) in (None, torch.int64, torch.long, torch.int32, torch.int))] \
+        + [("Inv:" + a, b) for a, b in uf_inv(o)]
 
 
 def init_modifies(ctx, s):
@@ -852,6 +860,8 @@ def _field(kind, H, W, seed, periodic):
 
     rng = np.random.default_rng(seed)
     y, x = np.meshgrid(np.arange(H), np.arange(W), indexing="ij")
+    if kind == "ramp-steep":  # 3 rad per pixel along the long axis: ~0.48 wraps per pixel
+        return 3.0 * (x if W >= H else y).astype(float) + 0.3 * (y if W >= H else x)
     if kind == "periodic-big":  # several wraps along the longer axis, smooth across the periodic seam
         n = max(H, W)
         t = (y if H >= W else x).astype(float)
@@ -989,6 +999,9 @@ def fam_unwrap(tier="quick", seed=0):
                 yield dict(H=H, W=W, field=field, mask=mask, wrap_around=False, seed=seed + H * 31 + W)
         for mask in ("none", "hole", "corner-disk", "stripe"):
             yield dict(H=H, W=W, field="periodic", mask=mask, wrap_around=True, seed=seed + H * 7 + W)
+    # more than 128 / 256 wraps inside one region (a narrow integer dtype for the accumulated offsets would overflow)
+    yield dict(H=2, W=700, field="ramp-steep", mask="none", wrap_around=False, seed=seed)
+    yield dict(H=5, W=400, field="ramp-steep", mask="two", wrap_around=False, seed=seed + 1)
     # grids with a length-1 axis and long periodic profiles (several wraps, valid arc connected only across the seam)
     for (H, W) in [(1, 24), (24, 1), (1, 48), (3, 30)] + ([(48, 1), (2, 40)] if tier == "thorough" else []):
         for mask in ("none", "gap"):
